@@ -13,14 +13,16 @@
     **the per-class free counts sum to exactly this fast total** (third sentence of the property);
     the class table keeps its 8 rows.
 
-  PARTIAL: the second sentence for the whole program (Σ_c (free_c + alloc_c) = #trees · TREE_FRAMES
-  after the slot correction) needs that the correction of F9 never saturates — each class holds
-  at least the frames of the reservations on its trees (distinct reserved trees, slot counter ≤
-  TREE_FRAMES − tree counter) — a counting argument over the slot/class partition that is not
-  proved; carried by the partition oracle of the correspondence (after every call, with
-  reservations present and after drains).
+  * `tree_stats_partition` — **both sums for the whole program**: in every state satisfying the
+    upper invariant, after `tree_stats` (tree pass, slot pass, slot correction of F9)
+    Σ_c (free_c + alloc_c) = #trees · TREE_FRAMES and Σ_c free_c = the fast total. The correction
+    subtracts with saturation; it never saturates because every class's allocated count covers
+    the reservations on the trees of that class (`need_le_alloc`: distinct reserved trees —
+    `slotInj` —, reservation ≤ TREE_FRAMES − tree counter — exact accounting —, and the slots
+    visited class by class are exactly the present slots — the partition of `Proofs/FastTotal`).
 -/
 import LLFreeV.Proofs.TreeStats
+import LLFreeV.Proofs.ClassPartition
 namespace LLFree.C14
 open LLFree Prog
 
@@ -42,6 +44,11 @@ theorem tree_stats_free_sum (c : Cfg) (H : Nat → Nat) (ok : CfgOk c) (m : Mem)
     Runs m (treeStats c) (fun s m' => m = m' ∧ s.classes.length = 8 ∧ classFree s.classes = s.freeFrames ∧
       ∃ s0, runSolo (Trees.stats c) m = (m, .ok s0) ∧ s.freeFrames = s0.freeFrames + slotSum c m) :=
   treeStats_spec c m ok inv
+
+/-- **C14, the whole program.** -/
+theorem tree_stats_partition (c : Cfg) (H : Nat → Nat) (ok : CfgOk c) (m : Mem) (inv : UpperInv0 c H m) :
+    Runs m (treeStats c) (fun s m' => m = m' ∧ classSum s.classes = c.ntrees * c.tf ∧ classFree s.classes = s.freeFrames) :=
+  treeStats_partition c m ok inv
 
 /-- the fold over the slots that `tree_stats` and `validate` use is the list fold over the
     present slots in class order -/
